@@ -231,6 +231,36 @@ theorem vary_when_compressed (c : Codecs) (bl ol : Int) (ae : Bytes) (h : Resp) 
     · exact key _ ol hout
     · exact absurd (hout ▸ rfl) hne
 
+/-! ### streamed bodies: nothing a stream delivers is lost on the way to the compressor -/
+
+/-- regenerated facts: each of the four streamed compressors copies through `copyBodyStream` and has no Read loop of its
+    own; `copyBodyStream` reads only through `copyBuffer` (directly or via `copyZeroAlloc`); and `copyBuffer` handles the
+    `nr > 0` bytes of a Read before its error. -/
+theorem stream_copy_respects_reader_contract :
+    Gen.compressStreamCopies.length = 4 ∧
+    Gen.compressStreamCopies.all (fun f => f.2.1 && !f.2.2.2 &&
+      f.2.2.1.all (fun g => decide (g ∈ ["copyBodyStream",
+        "acquireStacklessGzipWriter", "releaseStacklessGzipWriter", "acquireStacklessDeflateWriter", "releaseStacklessDeflateWriter",
+        "acquireStacklessBrotliWriter", "releaseStacklessBrotliWriter", "acquireStacklessZstdWriter", "releaseStacklessZstdWriter"]))) = true ∧
+    Gen.calls_copyBodyStream = ["copyBuffer", "copyZeroAlloc"] ∧ Gen.calls_copyZeroAlloc = ["copyBuffer"] ∧
+    Gen.copyBufferReadBeforeErr = true := by decide
+
+/-- the copy loop delivers EVERY byte of a stream that ends with io.EOF — whether the final bytes come together with
+    io.EOF (`last ≠ []`) or io.EOF comes alone (`last = []`), whatever the sizes of the Reads (1 byte, 0 bytes, …) —
+    and reports no error; these are the `reads` the model hands to `Codecs.encStream`. -/
+theorem copy_delivers_all_bytes (pre : List Bytes) (last : Bytes) :
+    copyBuffer (pre.map (fun d => (d, RdErr.none)) ++ [(last, RdErr.eof)]) = (pre.flatten ++ last, false) := by
+  induction pre with
+  | nil => rfl
+  | cons d t ih => simp [copyBuffer, ih, List.append_assoc]
+
+/-- a Read error other than io.EOF ends the copy after the bytes that came with it, and is reported -/
+theorem copy_reports_read_error (pre : List Bytes) (last : Bytes) (rest : List (Bytes × RdErr)) :
+    copyBuffer (pre.map (fun d => (d, RdErr.none)) ++ (last, RdErr.fail) :: rest) = (pre.flatten ++ last, true) := by
+  induction pre with
+  | nil => rfl
+  | cons d t ih => simp [copyBuffer, ih, List.append_assoc]
+
 /-! ### Append*/Write* under any load -/
 
 /-- the general form: whatever the call sites do with a full queue, as long as either they run the job inline or no
@@ -290,6 +320,7 @@ def toyCodecs : Codecs where
 def big : Bytes := List.replicate 200 97
 def htmlResp (b : Body) : Resp := ⟨[], ofString "text/html", [], 0, b⟩
 
+example : copyBuffer [([1], .none), ([], .none), ([2, 3], .eof)] = ([1, 2, 3], false) := by decide
 example : hasAcceptEncoding (ofString "deflate, gzip") Gen.strGzip = true := by decide +kernel
 example : hasAcceptEncoding (ofString "gzip;q=0") Gen.strGzip = false := by decide +kernel
 example : hasAcceptEncoding (ofString "xgzip") Gen.strGzip = false := by decide +kernel
